@@ -329,6 +329,55 @@ def gen_remb(rng):
     return [3, br, ss]
 
 
+def gen_rx_probe(rng):
+    """RTP arrivals at a real video RTCRtpReceiver: [ssrc index, abs-send-time or -1 (no extension), payload size, gap ms]"""
+    stamps = [0, 0, 1, 2, 0xFFFFFF, 0xFFFFFE, 0x800000, rng.randrange(1 << 24)]
+    t = rng.choice([0, 0xFFFF00, 0xFFFFF0, rng.randrange(1 << 24)])
+    pk = []
+    for _ in range(rng.randrange(2, 40)):
+        t = (t + rng.choice([0, 1, 8, 16, 300, 3000])) & 0xFFFFFF
+        r = rng.random()
+        st = -1 if r < 0.12 else (rng.choice(stamps) if r < 0.45 else t)
+        pk.append([rng.randrange(3), st, rng.choice([0, 1, 100, 1200]), rng.choice([0, 1, 5, 20, 1500])])
+    return [4, pk]
+
+
+def run_rx_probe(case):
+    """what RemoteBitrateEstimator.add was called with by the real receiver, and what arrived with a send-time stamp"""
+    from aiortc import rtp
+    from harness.props.c11 import ReceiverRig, _loop_run
+    out = {"fed": [], "want": []}
+
+    async def go():
+        rig = ReceiverRig([[[100, [0]]], [], [99]], None)
+        await rig.start()
+        try:
+            est = getattr(rig.receiver, "_RTCRtpReceiver__remote_bitrate_estimator")
+            real_add = est.add
+
+            def spy(abs_send_time, arrival_time_ms, payload_size, ssrc):
+                out["fed"].append([abs_send_time, arrival_time_ms, payload_size, ssrc])
+                return real_add(abs_send_time=abs_send_time, arrival_time_ms=arrival_time_ms, payload_size=payload_size, ssrc=ssrc)
+            est.add = spy
+            now = 0
+            for i, (si, st, size, gap) in enumerate(case[1]):
+                now += gap
+                pkt = rtp.RtpPacket(payload_type=100, sequence_number=(i + 1) & 0xFFFF, timestamp=1000 + 3000 * i,
+                                    ssrc=1234 + si, payload=b"\x10\x00\x00\x01" + bytes(size) if size else b"")
+                if st >= 0:
+                    pkt.extensions.abs_send_time = st
+                    out["want"].append([st, now, len(pkt.payload), 1234 + si])
+                try:
+                    await rig.handle(pkt, arrival_ms=now)
+                except Exception as exc:  # noqa
+                    out["raised"] = [i, type(exc).__name__]
+                    break
+        finally:
+            await rig.stop()
+    _loop_run(go())
+    return out
+
+
 class C15(Check):
     prop = "C15"
     props_file = "Props/C15.v"
@@ -352,7 +401,8 @@ class C15(Check):
             "correspondence only); AimdRateControl verdict/throughput histories (throughput 0..2^45, None, gaps 0..6 s); "
             "RemoteBitrateEstimator arrival histories from a toy sender/network (3-8 segments: steady, delay ramps up/"
             "down, bursts, idle 0.9-5 s, zero/tiny payloads, jitter; 24-bit abs-send-time wrap; 1..300 SSRCs); REMB "
-            "pack/unpack round trips (bitrate -1..2^82, 0..300 SSRCs). Distinct by (case, output); non-trivial = "
+            "pack/unpack round trips (bitrate -1..2^82, 0..300 SSRCs); plus (extra check, oracle only) 30 / 200 arrival lists at a real video "
+            "RTCRtpReceiver (3 SSRCs, stamps 0, 1, 2^24-1, none, wrap): every stamped arrival must reach the estimator. Distinct by (case, output); non-trivial = "
             "RateCounter: a rate is reported after buckets were erased; Aimd: an estimate after an OVERUSING verdict; "
             "Rbe: at least 2 estimates and (an OVERUSING verdict or a window reset); REMB: exponent > 0")
 
@@ -397,6 +447,8 @@ class C15(Check):
     # ------------------------------------------------------------ implementation
     def impl_run(self, case):
         kind = case[0]
+        if kind == 4:
+            return run_rx_probe(case)
         key = json.dumps(case)
         if kind == 0:
             return self._impl_counter(case)
@@ -565,7 +617,34 @@ class C15(Check):
             return self._oracle_aimd(case, impl_out)
         if kind == 2:
             return self._oracle_rbe(case, impl_out)
+        if kind == 4:
+            return self._oracle_rx_probe(case, impl_out)
         return self._oracle_remb(case, impl_out)
+
+    @staticmethod
+    def _oracle_rx_probe(case, out):
+        if out.get("raised"):
+            return ("receiver-raised", f"RTCRtpReceiver._handle_rtp_packet raised {out['raised'][1]} on arrival {out['raised'][0]}")
+        if out["fed"] != out["want"]:
+            miss = [w for w in out["want"] if w not in out["fed"]][:3]
+            return ("rtp-arrival-not-measured", f"{len(out['want'])} packets arrived with an abs-send-time stamp, the bandwidth "
+                                                f"estimator was fed {len(out['fed'])} [stamp, arrival ms, size, ssrc]; e.g. missing {miss}: "
+                                                "the measurement is not over exactly the packets that arrived")
+        return None
+
+    def extra_checks(self, ctx):
+        """`the measurement is computed over exactly the packets that arrived`: every RTP arrival at a real video
+        RTCRtpReceiver that carries an abs-send-time stamp (any 24-bit value, 0 included) is handed to the estimator"""
+        import random
+        rng = random.Random(1515)
+        n = 200 if ctx["tier"] == "thorough" else 30
+        self.rx_probe_cases = n
+        for _ in range(n):
+            case = gen_rx_probe(rng)
+            res = self._oracle_rx_probe(case, run_rx_probe(case))
+            if res:
+                return [(res[0], res[1], case)]
+        return []
 
     @staticmethod
     def _mono(times):
